@@ -13,7 +13,9 @@ Id(c) == [i \in 1..Len(c) |-> c[i]]
 Transp(c, a, b) == [i \in 1..Len(c) |-> IF i = a THEN c[b] ELSE IF i = b THEN c[a] ELSE c[i]]
 Rot(c, r) == [i \in 1..Len(c) |-> c[((i - 1 + r) % Len(c)) + 1]]
 Perms(c) == {Id(c)} \cup { Transp(c, a, b) : a, b \in 1..Len(c) } \cup { Rot(c, r) : r \in 1..(Len(c) - 1) }
-Schemes == {"same", "suffix", "underscore", "digits", "long", "swap", "reverse"}
+\* "tool-k": the k-th label gets a name that looks like one the tool could use internally (__return__)
+Schemes == {"same", "suffix", "underscore", "digits", "long", "swap", "reverse", "dunder",
+            "tool-0", "tool-1", "tool-2", "tool-3", "tool-4", "tool-5"}
 Init == phase = "start" /\ prog = 0 /\ tperm = Id(T) /\ sperm = Id(Sv) /\ labs = "same"
 Pick == /\ phase = "start"
         /\ \E p \in 1..NP, tp \in Perms(T), sp \in Perms(Sv), l \in Schemes :
